@@ -1,5 +1,5 @@
 """Registry: property id -> rule set, level and explanations."""
-from . import p_symbols, p_rs, p_charset, p_modes, p_macro, p_plan, p_codec, p_wire
+from . import p_symbols, p_rs, p_charset, p_modes, p_macro, p_plan, p_codec, p_wire, p_bitmap
 
 PROPS = {}
 
@@ -212,6 +212,20 @@ PROPS["C10"] = {
                    "returned symbol is the first of the BTreeSet order (capacity, then diagonal; keys pairwise distinct) that is big enough.",
     "assumptions": ["default cargo features"],
     "technique": "table inequalities + provenance rules over THIR",
+}
+
+PROPS["C08"] = {
+    "level": "other",
+    "rules": [p_bitmap.dom_bitmap, p_bitmap.align_cover, p_symbols.tab_sym],
+    "explanation": "Clause-level claim. Decided: the rejection clause (last sentence): ZeroWidth exactly on the true edge of the first test "
+                   "`width == 0`, every division by width on its false edge, DataSize exactly for len % width != 0, SymbolSize exactly "
+                   "for a failed lookup of (width, len/width) in the full catalogue, five error variants; ALIGN-COVER - the finder tests "
+                   "read the complete first and last row of every band of regions and the first and last module of every row piece "
+                   "(a parser that looks at fewer modules accepts damaged finder patterns); the catalogue's region arithmetic "
+                   "(content size positive and divisible by the region counts) for all 48 sizes. NOT decided: that rendering and parsing "
+                   "are mutual inverses for all contents - a statement over all 2^(w*h) arrays with no further structural handle.",
+    "assumptions": ["default cargo features"],
+    "technique": "MIR dominance by edge removal + expression-shape rules over THIR",
 }
 
 NOT_APPLICABLE = {
